@@ -948,7 +948,7 @@ def clean(lines):
             break
 
 
-def drive(run, profile, nscripts, nops, theorem_pid=None, asan=False, reopen=False, extra_check=None, audit=False):
+def drive(run, profile, nscripts, nops, theorem_pid=None, asan=False, reopen=False, extra_check=None, audit=False, geometry=0):
     """common body of the KV checks"""
     proofs_ok = run.proofs(theorem_pid or run.pid)
     impl = vlib.build_harness("h_kv", "asan" if asan else "plain")
@@ -977,6 +977,10 @@ def drive(run, profile, nscripts, nops, theorem_pid=None, asan=False, reopen=Fal
                             seen.setdefault(int(l.split()[1]), l.split()[3])
                     modes = [seen[k] for k in sorted(seen)]
                     scripts.append(("corpus:" + fn, ls, {"modes": modes}))
+        for n in range((geometry or 0) * mult):
+            rng = run.rng.fork()
+            ls, meta = geometry_script(rng, os.path.join(work, "g%d.db" % n), wal=rng.below(2))
+            scripts.append(("geom%d" % n, ls, meta))
         for n in range(nscripts * mult):
             rng = run.rng.fork()
             path = os.path.join(work, "s%d.db" % n)
@@ -1029,6 +1033,52 @@ def drive(run, profile, nscripts, nops, theorem_pid=None, asan=False, reopen=Fal
             run.cov["images_audited"] = auditor.runs
             auditor.close()
         shutil.rmtree(work, ignore_errors=True)
+
+
+def geometry_script(rng, path, wal=0):
+    """directed scripts for cursor geometry: two full nodes A=[k131..k100], B=[k031..k000]; cursors parked on chosen
+    slots (around the split pivot, node ends, the neighbouring node); one mutation chosen relative to them (insert that
+    splits at a chosen slot, delete of a chosen slot, delete through a cursor, overwrite); then every scan continues."""
+    K = lambda i: hexb(b"k%03d" % i)
+    L = ["open %s %d 0 1 0" % (path, wal), "db 0 1 000"]
+    for i in list(range(0, 32)) + list(range(100, 132)):
+        L.append("put 0 %s 0 %s 0 0" % (K(i), hexb(rng.bytes(rng.choice([1, 8, 30])))))
+    node = rng.choice(["A", "B"])
+    base = 100 if node == "A" else 0
+    slot_key = lambda sl: base + 31 - sl          # key index at slot sl of the chosen node
+    slots = rng.choice([[15, 16, 17, 18], [0, 1, 16, 17], [17, 30, 31, 16], [14, 17, 18, 31]])
+    for c, sl in enumerate(slots):
+        L.append("copen %d 0 5 %s 0" % (c, K(slot_key(sl))))
+        L.append("cget %d" % c)
+    # cursors on the neighbouring node: first slot of B / last slot of A
+    L.append("copen 4 0 5 %s 0" % K(31)); L.append("cget 4")
+    L.append("copen 5 0 5 %s 0" % K(100)); L.append("cget 5")
+    if rng.chance(1, 3):
+        L.append("cto %d %d" % (rng.below(4), rng.choice([3, 4])))   # one cursor moved without a read
+    kind = rng.weighted([("split", 6), ("del", 3), ("cdel", 2), ("set", 1), ("drain", 1)])
+    if kind == "split":
+        idx = rng.choice([1, 2, 15, 16, 17, 18, 19, 30, 31])
+        L.append("level %d" % rng.choice([0, 0, 1, 2]))
+        L.append("put 0 %s 0 %s 0 0" % (hexb(b"k%03d!" % slot_key(idx)), hexb(rng.bytes(4))))
+    elif kind == "del":
+        L.append("del 0 %s 0" % K(slot_key(rng.choice([0, 15, 16, 17, 18, 31]))))
+    elif kind == "cdel":
+        L.append("cdel %d" % rng.below(4))
+    elif kind == "set":
+        L.append("cset %d %s 0" % (rng.below(4), hexb(rng.bytes(rng.choice([2, 600])))))
+    else:
+        for sl in range(0, 32):
+            L.append("del 0 %s 0" % K(slot_key(sl)))
+    if rng.chance(1, 2):
+        L.append("put 0 %s 0 %s 0 0" % (hexb(b"k%03d!!" % slot_key(rng.choice([3, 17, 29]))), hexb(rng.bytes(3))))
+    for c in range(6):
+        mv = rng.choice([3, 4])
+        for _ in range(rng.choice([2, 5, 40])):
+            L.append("cto %d %d" % (c, mv))
+            L.append("cget %d" % c)
+        L.append("cpeek %d" % c)
+    L += ["dump 0", "rdump 0", "struct 0", "close"]
+    return L, {"modes": ["000"], "wal": wal}
 
 RULE = ("operation scripts generated from VERIF_SEED (key pools that fill nodes beyond 32 records, shared prefixes of 113..116 bytes, "
         "keys that are prefixes of one another, compound suffixes, integer/real-number keys, values 0..9000 bytes, forced skip-list levels); "
